@@ -300,6 +300,18 @@ def job_update_seq(j):
         r['other_unchanged'] = snap(other) == before
         if st.get('eval'):
             r['vals'] = eval_props(cur, st['eval'], ('cp', 'h', 's'))
+        # the merged object must behave like a correlation constructed afresh from its own (reported) state
+        stt = r['state']
+        try:
+            rg = stt['range']
+            pts = sorted(set([stt['T_ref']] + [t for t, _ in stt['tab']] + (list(rg) + [0.5 * (rg[0] + rg[1]), rg[0] + 1e-3, rg[1] - 1e-3] if rg else [])))
+            with warnings.catch_warnings(record=True):
+                warnings.simplefilter('always')
+                fresh = mk_inc({'H': None if stt['H'] is None else stt['H']['v'], 'S': None if stt['S'] is None else stt['S']['v'],
+                                'Ts': [t for t, _ in stt['tab']], 'Cps': [v['v'] for _, v in stt['tab']], 'T_ref': stt['T_ref'], 'range': rg})
+                r['self_vals'] = {'T': pts, 'cur': eval_props(cur, pts, ('cp', 'h', 's')), 'fresh': eval_props(fresh, pts, ('cp', 'h', 's'))}
+        except Exception as e:
+            r['self_vals'] = {'exc': exc_name(e)}
         out.append(r)
     return {'steps': out}
 
@@ -374,6 +386,41 @@ def job_yaml_roundtrip(j):
             shutil.rmtree(d, ignore_errors=True)
         out['variants'].append(v)
     out['unchanged'] = snap(obj) == before
+    # a correlation that was formatted, then changed, then formatted again (same units): the text must describe its state NOW
+    if j.get('mutate') and out['variants'] and 'text' in out['variants'][0]:
+        units = out['variants'][0]['units']
+        m = {'how': j['mutate']}
+        try:
+            with warnings.catch_warnings(record=True):
+                warnings.simplefilter('always')
+                if j['mutate'] == 'del_H':
+                    obj.del_ND_H_ref()
+                elif j['mutate'] == 'del_S':
+                    obj.del_ND_S_ref()
+                elif j['mutate'] == 'del_Cp':
+                    obj.del_ND_Cp()
+                elif j['mutate'] == 'set_range':
+                    r0 = rng_of(obj)
+                    obj.set_range((r0[0] - 7.5, r0[1] + 11.0) if r0 else (40.0, 2500.0))
+            m['state'] = snap(obj)
+            text = obj.yaml_format(units) if units is not None else obj.yaml_format()
+            m['text'] = text
+            d = tempfile.mkdtemp(dir=os.getcwd(), prefix='rt_')
+            try:
+                with open(os.path.join(d, 'scheme.yaml'), 'w') as f:
+                    f.write('patterns: []\n')
+                with open(os.path.join(d, 'library.yaml'), 'w') as f:
+                    f.write("groups:\n  'X(Y)':\n    'thermochem':\n" + '\n'.join('      ' + ln for ln in text.split('\n')) + '\n')
+                with warnings.catch_warnings(record=True):
+                    warnings.simplefilter('always')
+                    lib = GroupLibrary.Load(os.path.join(d, 'library.yaml'))
+                m['after'] = snap(lib['X(Y)']['thermochem'])
+            finally:
+                shutil.rmtree(d, ignore_errors=True)
+        except Exception as e:
+            m['exc'] = exc_name(e)
+            m['msg'] = str(e)[:200]
+        out['mutated'] = m
     return out
 
 
